@@ -131,6 +131,11 @@ theorem lift_step_as_coded (k : Nat) (f g cF' cG' : List Int) (hf : f.length = 2
     RingZ.liftStepImpl (2 ^ (k + 1)) f g cF' cG' = RingZ.liftStep (2 ^ (k + 1)) f g cF' cG' :=
   RingZ.liftStepImpl_eq k f g cF' cG' hf hg hF hG
 
+/-- `field_norm` as polynomial.rs computes it (schoolbook squares of the even and odd halves, each reduced, the odd one
+    shifted by X and reduced again) is the modelled relative norm, for every even length -/
+theorem field_norm_as_coded (m : Nat) (hm : 0 < m) (f : List Int) (hf : f.length = 2 * m) :
+    RingZ.fieldNormImpl (2 * m) f = RingZ.fieldNorm (2 * m) f := RingZ.fieldNormImpl_eq m hm f hf
+
 /-- NTRUSolve at the level of coefficients: every returned pair satisfies f⋆G − g⋆F = (q, 0, …, 0) in ℤ[X]/(Xⁿ+1) —
     the proposition the per-key exact check evaluates -/
 theorem ntru_solve_exact (ks : Nat → List Int → List Int → List (List Int)) (d : Nat) (f g cF cG : List Int)
